@@ -16,9 +16,10 @@ import (
 	"pgregory.net/rapid"
 
 	"verifharness/hx"
+	"verifharness/wire"
 )
 
-func TestMain(m *testing.M) { hx.Main(m) }
+func TestMain(m *testing.M) { wire.Init(false); hx.Main(m) }
 
 // ---------------------------------------------------------------------------
 // independent model of the documented command semantics
